@@ -39,6 +39,7 @@ pub fn canon_op(op: &Op) -> Op {
             files,
             main_path,
             opts,
+            abs_prefix,
             ..
         } => Op::Project {
             files: files.clone(),
@@ -46,8 +47,15 @@ pub fn canon_op(op: &Op) -> Op {
             via_hashmap: false,
             dups: Vec::new(),
             via_insert: false,
+            sibling_first: false,
+            abs_prefix: abs_prefix.clone(),
             main_path: main_path.clone(),
             opts: opts.clone(),
+        },
+        // what the buffer held before must not matter
+        Op::EditInPlace { src, .. } => Op::EditInPlace {
+            before: src.clone(),
+            src: src.clone(),
         },
         // the work in between must not matter: the reference is plain staged compilation
         Op::StagedSplit { src, opts, .. } => Op::Staged {
@@ -244,6 +252,8 @@ pub struct CheckResult {
     /// some call could not be judged because its reference context crashes
     pub unjudged: usize,
     pub judged: usize,
+    /// calls that received an injected panic: their own outcome is not judged
+    pub faulted: usize,
     pub harness_error: Option<String>,
 }
 
@@ -261,18 +271,21 @@ fn judge(
         *env = value.clone();
         return;
     }
+    if let Op::SetCwd { .. } = &call.op {
+        return;
+    }
     if out.obs.class == "noreturn" && res.violations.iter().any(|v| v.phase == "execution") {
         // the execution as a whole died (deadlock, step cap) and that is reported once;
         // the calls it took with it are consequences, not separate findings
         return;
     }
     if out.fault_fired {
-        // the one deliberate relaxation: the call that received the panic fault panics
-        res.judged += 1;
-        if out.obs.class != "panic" {
-            let exp = Obs::panic("injected".into());
-            res.violations.push(mk_violation(phase, t, k, &call.op, &exp, &out.obs));
-        }
+        // The one deliberate relaxation: the call that received the injected panic is not
+        // judged. It normally panics, but a library that catches its internal panics and
+        // returns an error instead is within its rights (an earlier version of this rule
+        // demanded the panic and would have flagged that — seeded change S35 showed it).
+        // What the fault is for is everything *else*: the other calls and the sentinel.
+        res.faulted += 1;
         return;
     }
     match refs.get(&call.op, env) {
@@ -375,6 +388,9 @@ fn refs_all_alive(plan: &Plan, refs: &mut RefTable) -> bool {
     for c in plan.threads.iter().flatten().chain(plan.sentinel.iter()) {
         if let Op::SetEnv { value } = &c.op {
             env = value.clone();
+            continue;
+        }
+        if let Op::SetCwd { .. } = &c.op {
             continue;
         }
         if refs.get(&c.op, &env).is_none() {
